@@ -43,6 +43,10 @@ def run(cx, tier='quick'):
     rep.floor('ATTRS-READ', 60)
     rep.not_decided += []
     rep.assumptions += ['the three couplings Copy/Clone, Eq/PartialEq, PartialOrd/Ord are the documented ones']
+    from .dispatch import check_shape_dispatch
+    check_shape_dispatch(cx, rep, None)
+    from .dispatch import check_output_append
+    check_output_append(cx, rep, None)
     # the type-level registration must visit every meta of every #[educe(..)] attribute: a loop that is left early makes one
     # trait's presence depend on another's (MERGE rule of C14)
     from .c14 import check_merge as _check_merge
